@@ -64,6 +64,22 @@ def encodeTzif (f : TzFile) : List Nat :=
   | v => encHeader v f.v1 ++ encBody 4 f.v1 ++ encHeader v f.v2 ++ encBody 8 f.v2
           ++ [10] ++ f.footer ++ [10]
 
+/-- the header a block is written with -/
+def hdrOf (v : Version) (b : Block) : Header :=
+  ⟨v, b.utLocals.length, b.stdWalls.length, b.leaps.length, b.trans.length, b.types.length, b.names.length⟩
+
+/-- what every written block satisfies, decoded or not: counts fit 32 bits, at least one type and one
+designation byte, indicator arrays empty or one per type -/
+structure BlockShape (b : Block) : Prop where
+  nt : b.trans.length < 4294967296
+  nty : b.types.length < 4294967296
+  nn : b.names.length < 4294967296
+  nl : b.leaps.length < 4294967296
+  ty0 : b.types.length ≠ 0
+  nn0 : b.names.length ≠ 0
+  sw : b.stdWalls.length = 0 ∨ b.stdWalls.length = b.types.length
+  ul : b.utLocals.length = 0 ∨ b.utLocals.length = b.types.length
+
 /-- designation starting at index `at`: the bytes up to the next NUL; `none` if empty -/
 def nameAt (names : List Nat) (i : Nat) : Option (List Nat) :=
   let n := (names.drop i).takeWhile (fun c => c != 0)
@@ -86,16 +102,15 @@ def renderNatAux : Nat → Nat → List Nat → List Nat
     if n < 10 then digitChar n :: acc else renderNatAux fuel (n / 10) (digitChar (n % 10) :: acc)
 def renderNat (n : Nat) : List Nat := renderNatAux (n + 1) n []
 
+/-- `h[:m[:s]]` of a non-negative number of seconds, shortest form -/
+def renderHmsAbs (a : Nat) : List Nat :=
+  renderNat (a / 3600)
+    ++ (if a % 60 ≠ 0 then [58] ++ renderNat (a / 60 % 60) ++ [58] ++ renderNat (a % 60)
+        else if a / 60 % 60 ≠ 0 then [58] ++ renderNat (a / 60 % 60) else [])
+
 /-- `[-]h[:m[:s]]`, shortest form -/
 def renderHms (v : Int) : List Nat :=
-  let a := v.natAbs
-  let h := a / 3600
-  let m := a / 60 % 60
-  let s := a % 60
-  (if v < 0 then [45] else [])
-    ++ renderNat h
-    ++ (if s ≠ 0 then [58] ++ renderNat m ++ [58] ++ renderNat s
-        else if m ≠ 0 then [58] ++ renderNat m else [])
+  (if v < 0 then [45] else []) ++ renderHmsAbs v.natAbs
 
 /-- alphabetic designations are written bare, the others in angle brackets -/
 def renderName (n : List Nat) : List Nat := if n.all isAlpha then n else [60] ++ n ++ [62]
@@ -151,5 +166,12 @@ def SortedStrict : List Transition → Prop
 def ZoneValid (z : Zone) : Prop :=
   z.types ≠ [] ∧ SortedStrict z.transitions ∧ (∀ t ∈ z.transitions, t.idx < z.types.length)
     ∧ (∀ t ∈ z.types, t.off ≠ I32_MIN ∧ ∀ n, t.name = some n → NameOk n)
+
+/-- the footer bytes of a file as the reader slices it: everything after the second data block
+(empty for version 1 and for files whose blocks cannot be sliced) -/
+def footerOf (bytes : List Nat) : List Nat :=
+  match parseBlocks bytes with
+  | .ok (_, some f) => f
+  | _ => []
 
 end Chrono.Spec.Tz
